@@ -15,9 +15,10 @@ import BumpverVerif.Driver.Config
 import BumpverVerif.Driver.V1
 import BumpverVerif.Driver.Update
 import BumpverVerif.Driver.Prims
+import BumpverVerif.Driver.UpdateV1
 open Lean BV BV.Drv
 
-def handlers : List Handler := [handleCore, handleV2, handleRw, handleCli, handlePep, handleCal, handleConfig, handleV1, handleUpdate, handlePrims]
+def handlers : List Handler := [handleCore, handleV2, handleRw, handleCli, handlePep, handleCal, handleConfig, handleV1, handleUpdate, handlePrims, handleUpdateV1]
 
 def handle (j : Json) : Except String Json := do
   let op ← getStr j "op"
